@@ -1,6 +1,7 @@
 package sim
 
 import (
+	"github.com/hyperledger/burrow/txs/payload"
 	appparams "github.com/certikfoundation/shentu/app/params"
 	"github.com/certikfoundation/shentu/app"
 	"github.com/hyperledger/burrow/crypto"
@@ -121,7 +122,16 @@ func BankVMProfile(seed int64, out *Recorder, nOps int) *Chain {
 			}
 		}
 		rt, _ := hex.DecodeString(vmPrograms[kind])
-		m := cvmtypes.NewMsgDeploy(c.Accts[who].Addr.String(), value, initCode(rt), "", nil, false, false)
+		// one deployment in five carries contract metadata with two entries (the code hashes the contract may create and their
+		// metadata): stored with the contract, exported and re-imported entry by entry
+		var meta []*payload.ContractMeta
+		if rng2.Intn(5) == 0 {
+			h1, h2 := make([]byte, 32), make([]byte, 32)
+			h1[0], h1[31] = 0xa1, byte(rng2.Intn(256))
+			h2[0], h2[31] = 0xb2, byte(rng2.Intn(256))
+			meta = []*payload.ContractMeta{{CodeHash: h1, Meta: fmt.Sprintf("meta-one-%d", rng2.Intn(1000))}, {CodeHash: h2, Meta: fmt.Sprintf("meta-two-%d", rng2.Intn(1000))}}
+		}
+		m := cvmtypes.NewMsgDeploy(c.Accts[who].Addr.String(), value, initCode(rt), "", meta, false, false)
 		res := c.Deliver(who, 3000000, DefaultFee, &m)
 		newAddr := ""
 		if res.Code == 0 {
